@@ -3,8 +3,8 @@
 SPECIFICATION SpecM
 VIEW View
 CHECK_DEADLOCK FALSE
-CONSTANTS TFs = {3,5} TradeTF = 1 Warm = 0 N = 11 MaxFills = 2 Fast = FALSE Chunk = 1
-QStale = FALSE QEmptyRead = FALSE QPartialChunk = FALSE Export = FALSE
+CONSTANTS TFs = {3,5} TradeTF = 1 Warm = 0 N = 11 MaxFills = 2 Fast = FALSE
+QStale = FALSE QEmptyRead = FALSE QPartialChunk = FALSE QChunkTrading = FALSE Export = FALSE
 INVARIANT NoReadError
 INVARIANT RowsAreAggregations
 INVARIANT CurrentIsAggregation
